@@ -466,6 +466,60 @@ def check_container_marks(P, ctx):
     ctx.floor(rule, 12)
 
 
+REFERENCE_FREE = {'String', 'Int', 'Float', 'File', 'Process', 'Mutex'}     # types whose objects hold no Cello reference
+
+
+def check_raw_parts(P, ctx, rule='C01.raw-parts-are-traced'):
+    """an object allocated raw (new_raw, alloc_raw) is not registered: the marker that reaches its address finds no entry and stops.  A
+    raw object that can hold references and is kept in a field of another object is therefore traced only if the owner's type has a Mark
+    instance that hands the field on — everything else the owner keeps alive through it would be swept."""
+    n = 0
+    for fn in P.all_functions():
+        if not fn['unit'].startswith('src/'):
+            continue
+        g = P.cfg(fn)
+        ltypes = {}
+        for nd in g.live():
+            d = nd.get('decl')
+            if d:
+                ltypes[('local', d['name'], d['id'])] = d['type']
+        for pi, (pn, pt) in enumerate(fn['params']):
+            ltypes[('param', pn, pi)] = pt
+        for nd in g.live():
+            e = nd['expr']
+            if e is None:
+                continue
+            for x in ir.walk(e):
+                if x[0] != 'assign' or x[1] != '=':
+                    continue
+                lhs, rhs = x[2], ir.top_nocast(x[3])
+                if lhs[0] != 'arrow' or rhs[0] != 'call' or ir.callee_name(rhs) not in ('new_raw_with', 'alloc_raw'):
+                    continue
+                t2 = ir.top_nocast(rhs[2][0])
+                t2 = t2[1] if t2[0] == 'global' else None
+                base = ir.top_nocast(lhs[1])
+                if lhs[1][0] == 'cast':
+                    bt = lhs[1][1]
+                else:
+                    bt = ltypes.get(base, '')
+                owner = bt.replace('struct ', '').replace('*', '').strip() if bt.startswith('struct ') else None
+                n += 1
+                key = '%s.%s' % (owner or fn['name'], lhs[2])
+                ctx.fn(fn)
+                if t2 in REFERENCE_FREE:
+                    ctx.proved(rule, key, site(fn, nd['line']), 'the raw part is a %s, which holds no reference to another object' % t2)
+                    continue
+                mk = P.slot(owner, 'Mark', 'mark', required=False) if owner and owner in P.types else None
+                ok = False
+                if mk:
+                    mfn = P.fn(mk)
+                    ok = any(ir.callee_name(c) == 'mark' and util.mentions_field(c[2][0], lhs[2]) for c, _ in ir.all_calls(mfn['body'])) or \
+                        any(ir.top_nocast(c[1])[0] == 'param' and any(util.mentions_field(a, lhs[2]) for a in c[2]) for c, _ in ir.all_calls(mfn['body']))
+                ctx.check(ok, rule, key, site(fn, nd['line']), 'a raw (unregistered) %s is kept in field `%s` of %s: the marker cannot trace through an unregistered object, so %s must have '
+                          'a Mark instance that hands this field on' % (t2 or 'object', lhs[2], owner or 'an object', owner or 'the owner'))
+    ctx.floor(rule, 2)
+
+
 def check_sweep_and_cycle(P, ctx):
     from .rules_c06 import check_sweep
     # sweep guard / pairing are shared with C06
@@ -695,6 +749,7 @@ def run(ctx, load):
     check_first_mark(P, ctx)
     check_tracer(P, ctx)
     check_container_marks(P, ctx)
+    check_raw_parts(load(None, 'default'), ctx)
     check_sweep_and_cycle(P, ctx)
     check_root_flag(P, ctx)
     from .rules_c17 import check_entry_moves_whole
